@@ -66,10 +66,10 @@ func runC11T(t *testing.T, c c11tCase) kit.Outcome {
 				holder.Released = true
 				w.mu.Unlock()
 				w.wg.Add(1)
-				go func() { defer w.wg.Done(); complete(holder.L, c.Outcome) }()
+				go func() { defer w.wg.Done(); defer notePanic(); complete(holder.L, c.Outcome) }()
 			} else {
 				w.wg.Add(1)
-				go func() { defer w.wg.Done(); head.cancel() }()
+				go func() { defer w.wg.Done(); defer notePanic(); head.cancel() }()
 			}
 		}
 		synctest.Wait()
@@ -223,7 +223,7 @@ func runC11A(t *testing.T, c c11aCase) kit.Outcome {
 				holder.Released = true
 				w.mu.Unlock()
 				w.wg.Add(1)
-				go func() { defer w.wg.Done(); complete(holder.L, c.Outcome) }()
+				go func() { defer w.wg.Done(); defer notePanic(); complete(holder.L, c.Outcome) }()
 			} else {
 				w.start(w1)
 			}
